@@ -20,6 +20,7 @@ Eq(a, b)         == [op |-> "eq", a |-> a, b |-> b]
 And(parts)       == [op |-> "and", parts |-> parts]
 Flip(t, bit)     == [op |-> "flip", of |-> t, bit |-> bit]
 SetByte(t, at, v) == [op |-> "setbyte", of |-> t, at |-> at, v |-> v]
+AddByte(t, at, v) == [op |-> "addbyte", of |-> t, at |-> at, v |-> v]     \* byte at `at` plus v modulo 256
 SliceDyn(t, from, lenfrom, base) == [op |-> "slicedyn", of |-> t, from |-> from, lenfrom |-> lenfrom, base |-> base]
 SliceBy(t, fromAt, lenAt) == [op |-> "sliceby", of |-> t, fromAt |-> fromAt, lenAt |-> lenAt]
 
@@ -38,6 +39,7 @@ TLen(t) == CASE t.op = "bytes" -> Len(t.v)
              [] t.op = "aescbc" -> TLen(t.plain)
              [] t.op = "flip" -> TLen(t.of)
              [] t.op = "setbyte" -> TLen(t.of)
+             [] t.op = "addbyte" -> TLen(t.of)
              [] t.op = "ref" -> 0
 Len16(t) == B(LE16(TLen(t)))
 =============================================================================
